@@ -32,10 +32,25 @@ def main():
                 data = open(rec["pyc"], "rb").read()
                 code = marshal.loads(data[16:])
             sys.stdout = buf
+            ns = {"__name__": "__main__", "__file__": rec.get("pyc") or rec.get("py_src")}
             try:
-                exec(code, {"__name__": "__main__", "__file__": rec.get("pyc") or rec.get("py_src")})
+                exec(code, ns)
             finally:
                 sys.stdout = real_out
+                if rec.get("dump"):
+                    # the values the module's bindings hold: class name (and element classes) plus repr
+                    g = {}
+                    for k, v in list(ns.items()):
+                        if k.startswith("__") or callable(v) or type(v).__name__ == "module":
+                            continue
+                        try:
+                            ent = {"cls": type(v).__name__, "mro": [c.__name__ for c in type(v).__mro__][:6], "repr": repr(v)[:200]}
+                            if isinstance(v, (list, tuple)):
+                                ent["elems"] = [[type(x).__name__, repr(x)[:60]] for x in v][:16]
+                            g[k] = ent
+                        except Exception as e2:
+                            g[k] = {"cls": type(v).__name__, "repr": "<repr failed: %s>" % type(e2).__name__}
+                    res["globals"] = g
         except SystemExit as e:
             res["exit"] = e.code if isinstance(e.code, int) or e.code is None else str(e.code)
         except BaseException as e:  # noqa
